@@ -224,8 +224,10 @@ pub fn run(ctx: &Ctx, st: &mut Stats) -> Vec<Violation> {
     // real-size neutral frames (above 2^21 pixels), the two ranges of a depth decoded back to back on one
     // thread in both orders: black exactly 0, white 1, greys grey, whatever was decoded before
     let big: Vec<(usize, usize)> = if ctx.quick() { vec![(1449, 1449)] } else { vec![(1449, 1449), (2049, 2049), (3841, 2161)] };
-    out.extend(par_sweep(ctx, st, big.len() as u64 * 3, |lo, hi, st| {
-        for j in lo..hi {
+    // (sequentially, on this thread: the frames of one depth must really follow each other)
+    let seq = Ctx { id: ctx.id.clone(), tier: ctx.tier, seed: ctx.seed, threads: 1, known_open: vec![], build: ctx.build.clone(), light: ctx.light };
+    out.extend(par_sweep(&seq, st, 1, |_, _, st| {
+        for j in 0..big.len() as u64 * 3 {
             let (w, h) = big[(j / 3) as usize];
             let (depth, u8s) = [(8u8, true), (10, false), (16, false)][(j % 3) as usize];
             let n = w * h;
